@@ -63,13 +63,13 @@ std::vector<PropSpec> const& props()
             "paired runs: non-finite values injected at seeded calls vs. the same calls returning zero; non-trivial = at least one injected non-finite evaluation fired; distinct = distinct plan shape hashes"},
         {"C07", {{"grid", 70}, {"history", 15}, {"restart", 15}}, 18000, 720000, "exploration",
             "VEGAS runs with long refinement histories plus direct probes (u == 1, hand made data); invariants on every grid and point, equal-share bracket against a long double reference; non-trivial = every grid plan; distinct = distinct plan shape hashes"},
-        {"C08", {{"weights", 60}, {"history", 25}, {"mpi", 15}}, 60000, 2400000, "exploration",
+        {"C08", {{"weights", 55}, {"history", 20}, {"mpi", 13}, {"restart", 12}}, 60000, 2400000, "exploration",
             "multi-channel runs with up to 40 refinements plus direct probes of the refinement; probability-vector invariants and reference model; distinct = distinct plan shape hashes"},
         {"C09", {{"select", 70}, {"history", 30}}, 14000, 560000, "exploration",
             "selector draws forced to 0, largest-below-1, every cumulative boundary and neighbours, mid points; inside runs and on the selector type directly; distinct = distinct plan shape hashes"},
         {"C10", {{"usage", 30}, {"history", 50}, {"poison", 20}}, 60000, 2400000, "exploration",
             "draw counter per call under all engines and faults, stored generator vs. discard, engines with odd ranges against the predictor; distinct = distinct plan shape hashes"},
-        {"C11", {{"bins", 70}, {"restart", 15}, {"mpi", 15}}, 40000, 1600000, "exploration",
+        {"C11", {{"bins", 60}, {"restart", 12}, {"mpi", 13}, {"poison", 15}}, 40000, 1600000, "exploration",
             "projector adds logged and re-binned by an independent long double reference (conservation per bin, edges ambiguous within one rounding error), probe coordinates on edges / outside / non-finite; distinct = distinct plan shape hashes"},
         {"C12", {{"protocol", 70}, {"mpi", 30}}, 18000, 720000, "exploration",
             "interleaved history of integrand calls and callback invocations; user callback stop positions; built-in callback with target 0 on degenerate integrands and with targets placed between reference relative errors; distinct = distinct plan shape hashes"},
@@ -929,8 +929,8 @@ int run_main(std::string const& self, std::string const& prop, int tier, u64 see
         int const rc = replay_in_child(binary, file, prop, f.tag, &out);
         if (crash ? !crash_code(rc) : rc != 1)
         {
-            std::printf("MACHINERY: property=%s tag=%s replay of %s in a fresh process gave exit %d\n%s\n", prop.c_str(),
-                f.tag.c_str(), file.c_str(), rc, out.c_str());
+            std::printf("MACHINERY: property=%s tag=%s replay of %s in a fresh process gave exit %d\n%s\noriginal finding (run %llu): %s\n", prop.c_str(),
+                f.tag.c_str(), file.c_str(), rc, out.c_str(), (unsigned long long) f.idx, f.detail.c_str());
             ++machinery;
             continue;
         }
